@@ -7,6 +7,7 @@ use riti_harness::trace::*;
 use serde_json::json;
 use std::path::{Path, PathBuf};
 
+pub mod c01;
 pub mod c03;
 pub mod c04;
 
@@ -41,6 +42,7 @@ pub fn run(a: &Args) -> i32 {
     let env = Env { a, data, tsv, scratch };
     let rep = match a.stream.as_str() {
         "probe" => { probe(&env); return 0; }
+        "c01" => c01::run(&env),
         "c03" => c03::run(&env),
         "c04" => c04::run(&env),
         x => { eprintln!("unknown stream {}", x); return 2; }
